@@ -1,6 +1,8 @@
 use crate::rng::Rng;
 
 pub mod alloc;
+pub mod fmt;
+pub mod sort;
 pub mod tsc;
 
 /// Generates `n` requests for `lab`.
@@ -8,6 +10,8 @@ pub fn gen(lab: &str, rng: &mut Rng, n: usize) -> Vec<String> {
     match lab {
         "tsc" => tsc::gen(rng, n),
         "alloc" => alloc::gen(rng, n),
+        "fmt" => fmt::gen(rng, n),
+        "sort" => sort::gen(rng, n),
         _ => panic!("unknown lab {lab}"),
     }
 }
@@ -18,6 +22,8 @@ pub fn exec(verb: &str, req: &str) -> String {
     match verb {
         "tsc" | "tsc3" | "tscshift" | "dur" | "prec" | "precs" => tsc::exec(verb, &toks),
         "prof" | "tally" | "tallymt" => alloc::exec(verb, &toks),
+        "fd" | "f64" | "bytes" | "thr" => fmt::exec(verb, &toks),
+        "natcmp" | "natcmp3" | "argcmp" | "argsort" => sort::exec(verb, &toks),
         _ => format!("bad-verb"),
     }
 }
